@@ -183,6 +183,8 @@ class Configuration(object):
         return self._cfg.__contains__(key)
 
     def __getitem__(self, sec):
+        # section names are case-insensitive (like the keys)
+        sec = ConfigurationDict._k(sec)
         if sec not in self and (sec in dfn.config_keys or sec == "user"):
             # create an empty section for user-convenience
             section = None if self.disable_checks else sec
@@ -313,10 +315,12 @@ class Configuration(object):
     def update(self, newcfg):
         """Update current config with a dictionary"""
         for sec in newcfg.keys():
-            if sec not in self._cfg:
-                section = None if self.disable_checks else sec
-                self._cfg[sec] = ConfigurationDict(section=section)
-            self._cfg[sec].update(newcfg[sec])
+            # section names are case-insensitive (like the keys)
+            lsec = ConfigurationDict._k(sec)
+            if lsec not in self._cfg:
+                section = None if self.disable_checks else lsec
+                self._cfg[lsec] = ConfigurationDict(section=section)
+            self._cfg[lsec].update(newcfg[sec])
 
 
 class CaseInsensitiveDict(ConfigurationDict):
